@@ -6,6 +6,16 @@ ROOT = os.path.dirname(os.path.dirname(os.path.abspath(__file__)))
 
 # property id -> (engine, level category, technique, level text, level note, design ref)
 CHECKS = {
+    "C14": ("SEQ (outcome trees)", "model_checking",
+            "exhaustive enumeration of the complete outcome tree of every policy on a grid, each path one run of the real RetryPolicy::execute under tokio's paused clock",
+            "For every policy on the grid max_attempts 0..=5 x initial back-off {0,1 ms,100 ms,20 s} x max back-off {0,1 ms,10 s} x multipliers {0,0.5,1,2,10,1e308,inf,NaN,-1} x jitter on/off plus every distinct policy RetryPolicy::from_env produces from the environment-string grid: the complete tree of outcome sequences over {Ok, retryable, rate-limited with hint none/0 s/5 s, non-retryable} (a path ends where the policy stops) is executed on the real code with a scripted closure that records virtual time. Oracle: invocations <= max_attempts+1; stop at first Ok / first non-retryable and return exactly that; gap >= hint and <= 1.3 x hint with a hint, otherwise <= 1.3 x max_backoff and within [d,1.3d] for sane policies; no panic; finite virtual time.",
+            "Trusted: tokio's paused clock is exact for pure timers (+1 ms granularity allowance); jitter judged through intervals only. Waits beyond 200 virtual days are judged by their lower bound; policies with an astronomical initial back-off are parsed but not executed.",
+            "DESIGN.md §4 C14"),
+    "C20": ("ENUM", "exploration",
+            "exhaustive enumeration of key/endpoint/name strings composed of path-significant tokens through every API that turns a string into a path or URL, judged by a directory diff of a sandbox parent",
+            "Every string of <=3 (thorough 4) tokens from {.., ., /, a, a.b, a.tmp, empty, NUL, backslash, :, ~, 300-byte name, /abs, hex hash, ../../..} used as raw DiskCache key (both layouts), as every string field of the ten typed keys, as ProtocolCache key, as RibbitTactClient::query endpoint (only those the real validation accepts) and as CDN endpoint path / archive key against a loopback mock, as Storage::open_installation name; content keys of every length 0..=32 through seven CdnClient calls; offsets/lengths over {0,1,2^64-1}^2; boundary binary keys for path helpers; 11 990 ordered pairs of distinct well-formed typed keys. Oracle: nothing outside the configured root changes (metadata and content hashes of a 13-level-deep sandbox), no get returns the sentinel's content, no panic, distinct well-formed keys never share a file.",
+            "Trusted: the sandbox snapshot. Strings of more tokens, CDN host strings, symlinks and Windows path semantics are not covered.",
+            "DESIGN.md §4 C20"),
     "C02": ("ENUM (isolated workers)", "exploration",
             "deviation-bounded exhaustive mutation of fixtures and builder-made artifacts per parser target inside isolated worker processes with a counting allocator",
             "For each of 29 parser/decoder targets and every seed (repository fixtures, builder-made artifacts, minimal text documents): every byte substitution (all 255 values for seeds up to 4 KiB, boundary values otherwise), every truncation length, extensions, every 2/3/4/5/8-byte window near start/end set to boundary values in both endiannesses, (thorough) every pair of boundary windows in headers/footers, every short string over the grammar tokens of the text formats. Each case runs in a worker process: a panic, an abort (incl. a single allocation request beyond 1 GiB + 64 MiB, refused by the counting allocator), 5 s of CPU time without returning, or a disproportionate allocation in a non-decompressing parser is a violation attributed to exactly that case.",
